@@ -48,6 +48,21 @@ TARGETS = {
             ("py_trees/behaviours.py", "TickCounter", "initialise", "TickCounter_initialise")],
 }
 
+# generated definition -> the bridge theorem that relates it to the model (Props/<Cxx>g.lean)
+BRIDGE = {
+    "Inverter_update": "C09_gen_inverter", "RunningIsFailure_update": "C09_gen_runningIsFailure",
+    "RunningIsSuccess_update": "C09_gen_runningIsSuccess", "FailureIsSuccess_update": "C09_gen_failureIsSuccess",
+    "FailureIsRunning_update": "C09_gen_failureIsRunning", "SuccessIsFailure_update": "C09_gen_successIsFailure",
+    "SuccessIsRunning_update": "C09_gen_successIsRunning", "PassThrough_update": "C09_gen_passThrough",
+    "Condition_update": "C09_gen_condition", "Count_update": "C09_gen_count_update",
+    "Count_terminate": "C09_gen_count_terminate", "Count_setup": "C09_gen_count_setup",
+    "Retry_update": "C10_gen_retry_update", "Retry_initialise": "C10_gen_retry_initialise",
+    "Repeat_update": "C10_gen_repeat_update", "Repeat_initialise": "C10_gen_repeat_initialise",
+    "absolute_name": "C15_gen_absolute_name", "relative_name": "C15_gen_relative_name",
+    "SuccessEveryN_update": "C17_gen_everyN", "TickCounter_update": "C17_gen_tickcounter_update",
+    "TickCounter_initialise": "C17_gen_tickcounter_initialise",
+}
+
 LEAN_TYPE = {"Int": "Int", "Str": "List Char", "Status": "Status", "Bool": "Bool"}
 
 
@@ -430,26 +445,59 @@ namespace Gen
 """
 
 
-def generate(repo, pid):
-    """Lean source of PyTreesGen/<pid>.lean for the current tree, and the list of translation problems"""
+GEN_PINS = os.path.join(os.path.dirname(os.path.abspath(__file__)), "gen_pins.json")
+
+
+def translate_target(repo, trees, f, cname, fname, lname):
+    if f not in trees:
+        trees[f] = ast.parse(open(os.path.join(repo, f)).read())
+    tree = trees[f]
+    cls = find_class(tree, cname)
+    fn = find_func(cls, fname)
+    consts = {c.name: class_constants(c) for c in tree.body if isinstance(c, ast.ClassDef)}
+    return Fn(cls, fn, consts).translate(lname)
+
+
+def generate(repo, pid, pins=None):
+    """Lean source of PyTreesGen/<pid>.lean for the current tree, and the list of functions that could not be
+    translated.  For those the translation of the VALIDATED tree (gen_pins.json) is emitted instead, clearly marked: the
+    bridge theorem then says nothing about the new code and the tie for that function is the correspondence run alone
+    (check.py reports it as `translation_fallback`; it is not a proof problem)."""
+    import json
+    if pins is None:
+        try:
+            pins = json.load(open(GEN_PINS))
+        except Exception:
+            pins = {}
     out = [HEADER % (pid, pid)]
     problems = []
     trees = {}
     for f, cname, fname, lname in TARGETS.get(pid, []):
         try:
-            if f not in trees:
-                trees[f] = ast.parse(open(os.path.join(repo, f)).read())
-            tree = trees[f]
-            cls = find_class(tree, cname)
-            fn = find_func(cls, fname)
-            consts = {c.name: class_constants(c) for c in tree.body if isinstance(c, ast.ClassDef)}
-            text = Fn(cls, fn, consts).translate(lname)
+            text = translate_target(repo, trees, f, cname, fname, lname)
             out.append("/-- `%s.%s` (%s) -/\n%s" % (cname, fname, f, text))
         except (Unsupported, SyntaxError, OSError) as e:
-            problems.append("%s.%s: %s" % (cname, fname, e))
-            out.append("-- UNTRANSLATABLE %s.%s: %s\n" % (cname, fname, str(e).replace("\n", " ")))
+            reason = str(e).replace("\n", " ")
+            problems.append("%s.%s [%s]: %s" % (cname, fname, BRIDGE.get(lname, "?"), reason))
+            if lname in pins:
+                out.append("-- UNTRANSLATABLE %s.%s (%s): FALLBACK to the translation of the validated tree\n%s"
+                           % (cname, fname, reason, pins[lname]))
+            else:
+                out.append("-- UNTRANSLATABLE %s.%s: %s\n" % (cname, fname, reason))
     out.append("end Gen\n")
     return "\n".join(out), problems
+
+
+def pin(repo):
+    """record the translation of every target from `repo` (the validated tree) as the fallback texts"""
+    import json
+    pins = {}
+    trees = {}
+    for pid in sorted(TARGETS):
+        for f, cname, fname, lname in TARGETS[pid]:
+            pins[lname] = translate_target(repo, trees, f, cname, fname, lname)
+    json.dump(pins, open(GEN_PINS, "w"), indent=0, sort_keys=True)
+    return len(pins)
 
 
 def regenerate(repo, lean_dir, pid):
